@@ -18,6 +18,7 @@ import os
 from .absint import FALSE, NONE, TOP, TRUE, Undecided, exc, heap_key, is_handle, own_names, unbox_deep, val
 from .astutil import FUNC_TYPES, attr_chain, dotted
 from .effects import DELETED, EffectDomain, exc_info_of, is_generator
+from .generators import LazyGenerators
 
 CALLABLE_TAGS = ("func", "method", "boundmethod", "bound", "partial", "builtin", "listappend", "attrgetter", "itemgetter", "methodcaller", "classref", "ctorref", "userfn", "setmethod", "decoderfactory", "decodermethod", "strmethod", "dictmethod", "supermethod")
 
@@ -30,13 +31,13 @@ def is_exitstack(v):
     return isinstance(v, tuple) and len(v) == 2 and v[0] == "exitstack"
 
 
-class ObjectDomain(EffectDomain):
+class ObjectDomain(LazyGenerators, EffectDomain):
     list_outparams = True
     enter_returns_self = True
     closure_cells = True   # closures share their free variables with the defining frame through cells that outlive it
     generator_objects = True   # a generator function call evaluates to an iterator object (position shared by all holders)
     heap = True            # a list / dict that gets a second owner becomes a heap object: both owners see every change
-    IDENTITY_TAGS = EffectDomain.IDENTITY_TAGS + ("inst", "classref", "ctorref", "excclass", "func", "method", "boundmethod", "userfn", "pytype", "seqiter", "itercount")
+    IDENTITY_TAGS = EffectDomain.IDENTITY_TAGS + ("inst", "classref", "ctorref", "excclass", "func", "method", "boundmethod", "userfn", "pytype", "seqiter", "itercount", "genobj")
 
     # -- values ---------------------------------------------------------------------------------
     def truth(self, value):
@@ -427,7 +428,7 @@ class ObjectDomain(EffectDomain):
         if all(isinstance(c, str) for c in chain) and ".".join(chain) in self.ctors and not st.has(fr.local(chain[0])):
             return ("ctorref", ".".join(chain))   # a constructor of the environment, handed around as a value
         if len(chain) == 1 and isinstance(chain[0], str) and not st.has(fr.local(chain[0])):
-            if chain[0] in ("bool", "repr", "str", "len", "object"):
+            if chain[0] in ("bool", "repr", "str", "len", "object", "getattr", "setattr", "delattr", "hasattr"):
                 return ("builtin", chain[0])
             f = self._lookup_function(chain[0], fr) or self.classes.lookup_function(getattr(fr.func, "_module", None), chain[0])
             if f is not None:
@@ -517,6 +518,43 @@ class ObjectDomain(EffectDomain):
 
     wobj_state = True
 
+    def _delattr_value(self, base, name, st):
+        """delattr(base, name) on values -> results, or None when the model cannot tell."""
+        if not (isinstance(name, tuple) and name[:1] == ("const",) and isinstance(name[1], str)):
+            return None
+        if base == ("self",) or is_inst(base):
+            key = ("self." if base == ("self",) else f"inst.{base[1]}.") + name[1]
+            if not st.has(key):
+                return [exc(("exc", "AttributeError"), st)]
+            return [val(NONE, type(st)(frozenset((k, v) for k, v in st.items if k != key), st.log))]
+        if isinstance(base, tuple) and base[:1] == ("wobj",) and (st.get(f"obj.{base[1]}.{name[1]}", None) == DELETED or ((base[1], name[1]) in self.lacks and not st.has(f"obj.{base[1]}.{name[1]}"))):
+            return [exc(("exc", "AttributeError"), st)]
+        s2 = self.delete_attr_on(base, name[1], st)
+        return [val(NONE, s2)] if s2 is not None else None
+
+    def _attr_builtin(self, interp, which, pos, st, fr):
+        """getattr / setattr / delattr / hasattr called through a value (handed around as functions)."""
+        if which == "setattr" and len(pos) == 3 and isinstance(pos[1], tuple) and pos[1][:1] == ("const",) and isinstance(pos[1][1], str):
+            s2 = self.store_attr_on(pos[0], pos[1][1], pos[2], st, fr)
+            return [val(NONE, s2)] if s2 is not None else None
+        if which == "delattr" and len(pos) == 2:
+            return self._delattr_value(pos[0], pos[1], st)
+        if which in ("getattr", "hasattr") and len(pos) in ((2, 3) if which == "getattr" else (2,)) and isinstance(pos[1], tuple) and pos[1][:1] == ("const",) and isinstance(pos[1][1], str):
+            got = self.attr_of_value(interp, pos[0], pos[1][1], st, fr)
+            if got is None:
+                return None
+            out = []
+            for r in got:
+                missing = r.kind == "exc" and r.value[:2] == ("exc", "AttributeError")
+                if which == "hasattr":
+                    out.append(val(FALSE if missing else TRUE, r.state) if r.kind == "val" or missing else r)
+                elif missing and len(pos) == 3:
+                    out.append(val(pos[2], r.state))
+                else:
+                    out.append(r)
+            return out
+        return None
+
     def store_attr_on(self, base, attr, value, st, fr):
         got = super().store_attr_on(base, attr, value, st, fr)
         if got is not None:
@@ -581,6 +619,9 @@ class ObjectDomain(EffectDomain):
         """Inline ``f``; a generator function's body runs now and the call evaluates to the sequence of its yields
         (as for generator functions called by name)."""
         if isinstance(f, FUNC_TYPES) and is_generator(f) and getattr(self, "collect_yields", True) and not self._decorators(f) & {"inlineCallbacks", "contextmanager"}:
+            made = self.make_generator(interp, f, argvals, st, fr, **inline_kw) if self.lazy_eligible(f) else None
+            if made is not None:
+                return made
             key = f"gen.{fr.depth + 1}"
             out = []
             for r in interp.inline(f, argvals, st.set(key, ()), fr, **inline_kw):
@@ -762,6 +803,9 @@ class ObjectDomain(EffectDomain):
             # not a callable of the repository whose body will run: it receives (and the log records) what the lists / dicts hold now
             pos = [unbox_deep(v, st) for v in pos]
             kw = [(k, unbox_deep(v, st)) for k, v in kw]
+        if tag == "builtin" and fn[1] in ("getattr", "setattr", "delattr", "hasattr") and not kw:
+            got = self._attr_builtin(interp, fn[1], pos, st, fr)
+            return got if got is not None else [val(TOP, st)]
         if tag == "builtin" and len(pos) <= 1:
             if fn[1] == "bool" and pos:
                 return [val({"T": TRUE, "F": FALSE}.get(self.truth(pos[0]), ("bool",)), st)]
@@ -816,6 +860,9 @@ class ObjectDomain(EffectDomain):
             if argvals is None:
                 return [exc(("exc", "TypeError"), st)]
             if is_generator(node) and getattr(self, "collect_yields", True) and not self._decorators(node) & {"inlineCallbacks", "contextmanager"}:
+                made = self.make_generator(interp, node, argvals, st, fr, receiver=fr.receiver, is_method=False, closure_env=fn[2] if len(fn) == 3 else ()) if self.lazy_eligible(node) else None
+                if made is not None:
+                    return made
                 # calling a generator function through a value: as for a call by name, its body runs now and the call evaluates to the sequence of its yields
                 key = f"gen.{fr.depth + 1}"
                 out = []
@@ -1151,25 +1198,11 @@ class ObjectDomain(EffectDomain):
                 if r.kind == "exc":
                     out.append(r)
                     continue
-                base, name = r.value
-                s2 = None
-                if isinstance(name, tuple) and name[:1] == ("const",) and isinstance(name[1], str):
-                    if base == ("self",) or is_inst(base):
-                        key = ("self." if base == ("self",) else f"inst.{base[1]}.") + name[1]
-                        s2 = type(r.state)(frozenset((k, v) for k, v in r.state.items if k != key), r.state.log) if r.state.has(key) else None
-                        if s2 is None:
-                            out.append(exc(("exc", "AttributeError"), r.state))
-                            continue
-                    else:
-                        if isinstance(base, tuple) and base[:1] == ("wobj",) and (r.state.get(f"obj.{base[1]}.{name[1]}", None) == DELETED
-                                                                                   or ((base[1], name[1]) in self.lacks and not r.state.has(f"obj.{base[1]}.{name[1]}"))):
-                            out.append(exc(("exc", "AttributeError"), r.state))
-                            continue
-                        s2 = self.delete_attr_on(base, name[1], r.state)
-                if s2 is None:
+                got = self._delattr_value(r.value[0], r.value[1], r.state)
+                if got is None:
                     decided = False
                     break
-                out.append(val(NONE, s2))
+                out.extend(got)
             if decided:
                 return out
         # codecs incremental decoders, folded on constant bytes: the standard library's own decoding of what was fed so far
@@ -1313,11 +1346,14 @@ class ObjectDomain(EffectDomain):
                 return [val(("super", owner, fr.instance), st)]   # super() as a value: attribute lookups continue after the current class
         if d == "iter" and len(call.args) == 1 and not call.keywords:
             # iter(<exact sequence>): an iterator object with its own position; next() advances it for every holder
-            got = interp._forced(interp.eval(call.args[0], st, fr), fr)
-            if got and all(r.kind == "exc" or interp._exact_elements(r.value) is not None or (isinstance(r.value, tuple) and r.value[:1] in (("seqiter",), ("itercount",))) for r in got):
+            got = interp.eval(call.args[0], st, fr)
+            ITERATORS = (("seqiter",), ("itercount",), ("genobj",), ("lazycomp",), ("calliter",), ("repeat",))
+            if not all(r.kind == "exc" or (isinstance(r.value, tuple) and r.value[:1] in ITERATORS) for r in got):
+                got = interp._forced(got, fr)
+            if got and all(r.kind == "exc" or interp._exact_elements(r.value) is not None or (isinstance(r.value, tuple) and r.value[:1] in ITERATORS) for r in got):
                 out = []
                 for r in got:
-                    if r.kind == "exc" or (isinstance(r.value, tuple) and r.value[:1] in (("seqiter",), ("itercount",))):
+                    if r.kind == "exc" or (isinstance(r.value, tuple) and r.value[:1] in ITERATORS):
                         out.append(r)   # (an iterator is its own iterator)
                         continue
                     n = r.state.get("ev.iters", 0)
@@ -1335,7 +1371,7 @@ class ObjectDomain(EffectDomain):
             return out
         if d == "next" and 1 <= len(call.args) <= 2 and not call.keywords:
             got = interp.eval(call.args[0], st, fr)
-            if got and all(r.kind == "exc" or (isinstance(r.value, tuple) and r.value[:1] in (("seqiter",), ("itercount",))) for r in got):
+            if got and all(r.kind == "exc" or (isinstance(r.value, tuple) and r.value[:1] in (("seqiter",), ("itercount",), ("genobj",), ("lazycomp",))) for r in got):
                 out = []
                 for r in got:
                     if r.kind == "exc":
@@ -1557,7 +1593,7 @@ class ObjectDomain(EffectDomain):
         return [(interp._exact_elements(value), st)]
 
     def pullable(self, v):
-        return isinstance(v, tuple) and v[:1] in (("calliter",), ("repeat",), ("seqiter",), ("itercount",)) or (isinstance(v, tuple) and v[:1] == ("lazymap",) and len(v) == 3 and self.pullable(v[2]))
+        return isinstance(v, tuple) and v[:1] in (("calliter",), ("repeat",), ("seqiter",), ("itercount",), ("genobj",), ("lazycomp",)) or (isinstance(v, tuple) and v[:1] == ("lazymap",) and len(v) == 3 and self.pullable(v[2]))
 
     def pull(self, interp, seq, st, fr):
         return self._pull(interp, seq, st, fr)
@@ -1595,6 +1631,10 @@ class ObjectDomain(EffectDomain):
             return [("item", seq[1], ("tuple",) + tuple(seq[2:]), st)]
         if isinstance(seq, tuple) and seq[:1] == ("repeat",) and len(seq) == 2:
             return [("item", seq[1], seq, st)]
+        if isinstance(seq, tuple) and seq[:1] == ("genobj",) and len(seq) == 2:
+            return self.pull_generator(interp, seq, st, fr)
+        if isinstance(seq, tuple) and seq[:1] == ("lazycomp",) and len(seq) == 6:
+            return self.pull_comprehension(interp, seq, st, fr)
         if isinstance(seq, tuple) and seq[:1] == ("seqiter",) and len(seq) == 2:
             rest = st.get(f"it.{seq[1]}", None)
             if not (isinstance(rest, tuple) and rest[:1] == ("tuple",)):
